@@ -130,3 +130,119 @@ for unit, rp in (
                     "get_quantizers(); QNoiseScheduler reads the attributes "
                     "`quantizers`/`quantizer`, finds neither, and never "
                     "updates this layer's qnoise_factor", "replayed": rp}
+
+# ---------------------------------------------------------------------- C09
+_C09_REPLAY = {
+    "quantized_linear": "q=quantized_linear(alpha='auto',scale_axis=0); "
+                        "quantized_linear.from_config(q.get_config())."
+                        "scale_axis -> None",
+    "quantized_bits": "q=quantized_bits(8,0,1,alpha='auto',scale_axis=0); "
+                      "quantized_bits.from_config(q.get_config()).scale_axis "
+                      "-> None (get_config has no such key; same for the "
+                      "other keys missing from the dictionary literal)",
+    "bernoulli": "bernoulli.from_config(bernoulli(temperature=4.0)."
+                 "get_config()).temperature -> 6.0",
+    "binary": "binary.from_config(binary(alpha='auto_po2',min_po2_exponent="
+              "-2).get_config()).min_po2_exponent -> None",
+    "quantized_relu": "quantized_relu.from_config(quantized_relu("
+                      "is_quantized_clip=False).get_config())."
+                      "is_quantized_clip -> True",
+}
+for cls, opts in (
+    ("quantized_linear", ["scale_axis"]),
+    ("quantized_bits", ["elements_per_scale", "max_po2_exponent",
+                        "min_po2_exponent", "scale_axis"]),
+    ("bernoulli", ["temperature", "use_real_sigmoid"]),
+    ("binary", ["elements_per_scale", "max_po2_exponent", "min_po2_exponent",
+                "scale_axis"]),
+    ("quantized_relu", ["is_quantized_clip"])):
+  for o in opts:
+    TRIAGE[("C09", "R2", Q + cls + ".get_config", "option-lost:" + o)] = {
+        "what_fails": "%s.get_config() has no %r key although the option "
+                      "changes the forward function: the quantizer rebuilt "
+                      "with from_config(get_config()) silently falls back to "
+                      "the default" % (cls, o),
+        "replayed": _C09_REPLAY[cls]}
+TRIAGE[("C09", "R1", Q + "quantized_hswish.from_config",
+        "rejects-own-config:keep_negative,post_training_scale")] = {
+    "what_fails": "quantized_hswish inherits quantized_bits.get_config, "
+                  "whose keys keep_negative and post_training_scale are not "
+                  "parameters of quantized_hswish.__init__",
+    "replayed": "quantized_hswish.from_config(quantized_hswish()."
+                "get_config()) -> TypeError: unexpected keyword argument "
+                "'keep_negative'"}
+
+# ---------------------------------------------------------------------- C10
+_C10 = {
+    ("quantized_linear", "printer-raises:UnboundLocalError"):
+        ("str(quantized_linear(alpha=2.0)) reads the local `alpha` before "
+         "assigning it", "str(quantized_linear(alpha=2.0)) -> "
+         "UnboundLocalError"),
+    ("quantized_po2", "printer-raises:TypeError"):
+        ("str(quantized_po2(8,use_stochastic_rounding=True)) evaluates "
+         "int(self.max_value) with max_value None",
+         "str(quantized_po2(8,use_stochastic_rounding=True)) -> TypeError"),
+    ("quantized_relu_po2", "printer-raises:TypeError"):
+        ("same int(None) in quantized_relu_po2.__str__",
+         "same construct as quantized_po2 (replayed there)"),
+    ("quantized_hswish", "printer-raises:AssertionError"):
+        ("quantized_hswish.__str__ asserts isinstance(integer_bits, int) on "
+         "a value that is always a str", "str(quantized_hswish()) -> "
+         "AssertionError"),
+    ("binary", "call-raises-after-reparse:scale_axis=list"):
+        ("binary prints list options as [a,b]; GetParams splits on commas "
+         "and ListofNums on spaces, so scale_axis=[0] comes back as the "
+         "string '0'", "get_quantizer(\"binary(alpha='auto',scale_axis=[0])"
+         "\") builds a binary whose scale_axis is not the list [0]"),
+    ("quantized_relu", "reparsed-differs:negative_slope"):
+        ("negative_slope is printed into the use_sigmoid positional slot",
+         "get_quantizer(str(quantized_relu(8,0,negative_slope=0.25))) = "
+         "get_quantizer('quantized_relu(8,0,0.25)') -> use_sigmoid=0.25, "
+         "negative_slope=0.0"),
+    ("quantized_relu", "reparsed-differs:use_stochastic_rounding"):
+        ("the stochastic flag is printed into the negative_slope slot",
+         "str(quantized_relu(8,0,use_stochastic_rounding=True)) = "
+         "'quantized_relu(8,0,0,1)' -> negative_slope=1, "
+         "use_stochastic_rounding=False"),
+    ("quantized_tanh", "reparsed-differs:symmetric"):
+        ("symmetric is printed into the use_stochastic_rounding slot",
+         "str(quantized_tanh(8,symmetric=True)) = 'quantized_tanh(8,1)' -> "
+         "use_stochastic_rounding=1, symmetric=False"),
+    ("quantized_tanh", "reparsed-differs:use_real_tanh"):
+        ("use_real_tanh is printed into an earlier positional slot",
+         "same printer idiom as symmetric (replayed there)"),
+    ("quantized_sigmoid", "reparsed-differs:use_real_sigmoid"):
+        ("use_real_sigmoid is printed into the symmetric slot",
+         "str(quantized_sigmoid(8,use_real_sigmoid=True)) = "
+         "'quantized_sigmoid(8,1)' -> symmetric=1, use_real_sigmoid=False"),
+    ("quantized_sigmoid", "reparsed-differs:use_stochastic_rounding"):
+        ("use_stochastic_rounding is printed into an earlier positional slot",
+         "same printer idiom (replayed for use_real_sigmoid)"),
+    ("quantized_relu_po2", "reparsed-differs:negative_slope"):
+        ("negative_slope is printed into the max_value slot",
+         "str(quantized_relu_po2(8,negative_slope=0.25)) = "
+         "'quantized_relu_po2(8,0.25)' -> max_value=0.25, negative_slope=0"),
+}
+for (cls, construct), (wf, rp) in _C10.items():
+  TRIAGE[("C10", "R4", Q + cls + ".__str__", construct)] = {
+      "what_fails": wf, "replayed": rp}
+_NOT_PRINTED = {
+    "quantized_linear": ["qnoise_factor", "scale_axis"],
+    "quantized_bits": ["elements_per_scale", "max_po2_exponent",
+                       "min_po2_exponent", "qnoise_factor", "scale_axis",
+                       "scale_axis=list"],
+    "quantized_relu": ["is_quantized_clip", "qnoise_factor",
+                       "relu_upper_bound"],
+    "quantized_po2": ["log2_rounding", "qnoise_factor"],
+    "quantized_relu_po2": ["log2_rounding", "qnoise_factor"],
+}
+for cls, opts in _NOT_PRINTED.items():
+  for o in opts:
+    TRIAGE[("C10", "R4", Q + cls + ".__str__", "reparsed-differs:" + o)] = {
+        "what_fails": "%s.__str__ never prints the option %s, so the text "
+                      "re-parses to a quantizer with the default value, "
+                      "which computes a different function" % (cls, o),
+        "replayed": "str(quantized_bits(8,0,1,alpha='auto',scale_axis=0)) = "
+                    "\"quantized_bits(8,0,1,alpha='auto')\"; the re-parsed "
+                    "object has scale_axis None (same omission for the "
+                    "other listed options, by reading the printer)"}
